@@ -204,6 +204,9 @@ class ReadStreamEnv(EnvClass):
         return inc, pos
 
     def receive(self, I, recv, args, kwargs, as_iter=False):
+        pre = getattr(self, "pre_receive", None)
+        if pre is not None:
+            pre(I, recv)
         inc, pos = self._deliver(I, recv)
         closed = V.concrete_bool(V.truthy(gfield(I, recv, "closed")))
         if closed:
@@ -248,7 +251,7 @@ class ReadStreamEnv(EnvClass):
         I.throw("WouldBlock", "")
 
 
-def checkpoint_nofire(I):
+def checkpoint_nofire(I, zero_time=False):
     """checkpoint that proceeds: no enclosing scope is already cancelled, time may pass within deadlines."""
     st = I.st
     for k in range(len(st.scopes) - 1, -1, -1):
@@ -265,8 +268,12 @@ def checkpoint_nofire(I):
             I.assume(n2 <= sc["deadline"])
         if sc.get("shield"):
             break
+    if zero_time:
+        I.assume(n2 == st.now)
+    I.prev_now = st.now
     st.now = n2
     I.record_write(("clock",))
+    I.ghost["checkpoints"] = I.ghost.get("checkpoints", 0) + 1
     for h in getattr(I, "checkpoint_hooks", []):
         h(I)
 
@@ -292,6 +299,7 @@ def checkpoint_mustfire(I):
     c = I.choose_n(len(active), "which_scope_fires")
     sc = active[c]
     dls = [s["deadline"] for s in active if s.get("deadline") is not None]
+    I.prev_now = st.now
     if sc.get("deadline") is not None:
         for d in dls:
             I.assume(sc["deadline"] <= d)
@@ -305,6 +313,7 @@ def checkpoint_mustfire(I):
             I.assume(n2 <= d)
         st.now = n2
     I.record_write(("clock",))
+    I.ghost["checkpoints"] = I.ghost.get("checkpoints", 0) + 1
     for h in getattr(I, "checkpoint_hooks", []):
         h(I)
     sc["cancelled"] = True
@@ -315,19 +324,22 @@ class WriteStreamEnv(EnvClass):
     """anyio MemoryObjectSendStream.  Ghost: written (messages accepted so far), closed."""
     name = "WriteStream"
 
-    def __init__(self):
+    def __init__(self, zero_time=False):
         self.methods = {"send": is_async(self.send), "aclose": is_async(self.aclose),
                         "send_nowait": self.send_nowait}
+        self.zero_time = zero_time      # buffered stream with room: send completes without virtual delay
 
     def send(self, I, recv, args, kwargs):
-        c = I.choose_n(3, "send")
+        att = Val.items(gfield(I, recv, "attempted"))
+        I.set_attr(recv, "attempted", V.VList(z3.simplify(z3.Concat(att, z3.Unit(args[0])))))
+        c = I.choose_n(2 if self.zero_time else 3, "send")
         if c == 0:
-            checkpoint_nofire(I)
+            checkpoint_nofire(I, zero_time=self.zero_time)
             w = Val.items(gfield(I, recv, "written"))
             I.set_attr(recv, "written", V.VList(z3.simplify(z3.Concat(w, z3.Unit(args[0])))))
             return V.NONE
         if c == 1:
-            checkpoint_nofire(I)
+            checkpoint_nofire(I, zero_time=self.zero_time)
             k = I.choose_n(2, "send_error")
             I.throw(["BrokenResourceError", "ClosedResourceError"][k], "")
         checkpoint_mustfire(I)
@@ -355,7 +367,7 @@ def make_read_stream(I, name="rs", env: ReadStreamEnv = None):
 
 
 def make_write_stream(I, name="ws", env: WriteStreamEnv = None):
-    return new_env_object(I, env or WRITE_STREAM, written=V.VList([]), closed=V.FALSE)
+    return new_env_object(I, env or WRITE_STREAM, written=V.VList([]), attempted=V.VList([]), closed=V.FALSE)
 
 
 # --------------------------------------------------------------------------- user callbacks
